@@ -31,12 +31,17 @@ structure MdCfg where
   hardWrap : Bool
   blockTags : List String
   preTags : List String
+  beforeParseHooks : List String := []   -- `md.before_parse_hooks`, by function name
+  beforeRenderHooks : List String := []  -- `md.before_render_hooks`
+  afterRenderHooks : List String := []   -- `md.after_render_hooks`
 
 def ofRuleCfg (c : RuleCfg) : MdCfg :=
   { name := c.name, blockSpec := c.blockSpec, blockRules := c.block.map (·.1), quoteRules := c.quote.map (·.1),
     listRules := c.list.map (·.1), inlineSpec := c.inlineSpec, inlineRules := c.inline.map (·.1),
     named := namedRx, groups := groupIndex, maxNested := c.maxNested, hardWrap := c.hardWrap,
-    blockTags := blockTags, preTags := preTags }
+    blockTags := blockTags, preTags := preTags,
+    beforeParseHooks := c.beforeParseHooks, beforeRenderHooks := c.beforeRenderHooks,
+    afterRenderHooks := c.afterRenderHooks }
 
 /-- a named module-level pattern (`.fail` if the working tree no longer has it: every use then declines) -/
 def MdCfg.rx (cfg : MdCfg) (name : String) : Rx := (cfg.named.lookup name).getD .fail
